@@ -9,7 +9,7 @@ from engine.facts import callee_name, callee_matches
 from engine import prov as P
 from engine.resultflow import is_bad
 
-SPEC = "/verif/spec"
+SPEC = os.path.join(os.path.dirname(os.path.dirname(os.path.abspath(__file__))), "spec")
 
 
 def load_exceptions():
@@ -852,6 +852,58 @@ def run_renamed(out, fn, old, new):
     out.exceptions_used.extend(tr.exceptions_used)
 
 
+def detect_cases_verdict(ctx, name):
+    """True: the detector of `name` was followed on all 8 cases of the small model and fires exactly as expected;
+    False: it was followed and does not; None: the model could not follow it."""
+    key = "_detect_verdict_" + name
+    if key not in ctx.__dict__:
+        from engine.core import Out
+        o = Out("detectcase")
+        try:
+            check_detect_cases(ctx, o, [name], "X.detectcase")
+            r = o.rules.get("X.detectcase", {})
+            if o.violations:
+                ctx.__dict__[key] = False
+            elif r.get("found") == 8:
+                ctx.__dict__[key] = True
+            else:
+                ctx.__dict__[key] = None
+        except Exception:       # noqa: BLE001
+            ctx.__dict__[key] = None
+    return ctx.__dict__[key]
+
+
+def detector_region(ctx, name):
+    """The code a detector can run: its `detect` with callees, plus - for a data-driven detector - the functions
+    held in the detector value's fields (`new_validator: fn() -> ValidatorType`)."""
+    info = ctx.validator(name) or {}
+    det = ctx.facts.bodies.get(info.get("detect") or "")
+    bodies = list(ctx.region(det)) if det is not None else []
+    dself = info.get("detect_self")
+
+    def fns(v):
+        if isinstance(v, tuple):
+            if len(v) == 2 and v[0] == "fn" and isinstance(v[1], str):
+                yield v[1]
+            for x in v:
+                for y in fns(x):
+                    yield y
+    for fid in set(fns(dself)) if dself is not None else ():
+        fb = ctx.facts.body(fid)
+        if fb is not None:
+            bodies.extend(ctx.region(fb))
+    if info.get("detect_subst"):
+        # a blanket impl: the methods of the detector type's own impl of the small trait
+        for imp in ctx.facts.impls:
+            if imp.get("self_ty") in info["detect_subst"].values() or imp.get("self_adt") in info["detect_subst"].values():
+                for m in imp.get("methods", []):
+                    mb = ctx.facts.body(m.get("def") or "")
+                    if mb is not None:
+                        bodies.extend(ctx.region(mb))
+    seen = set()
+    return [b for b in bodies if not (b.id in seen or seen.add(b.id))]
+
+
 def check_detect_cases(ctx, out, names, rule):
     """A validator exists only if its detector fires on some block, so which blocks fire it is part of every
     rule's behaviour: a block carrying the attribute - with any value, the empty and the blank one included -
@@ -863,8 +915,10 @@ def check_detect_cases(ctx, out, names, rule):
     and C01.guard remain)."""
     from engine import casewalk as CW
     from engine import strmodel as SM
+    from engine import listmodel as LM
     std = CW.std_hooks()
     sm = SM.hooks()
+    lmh = LM.hooks()
     vals = ctx.roles().get("validators", {})
     n = 0
     total = 0
@@ -876,7 +930,9 @@ def check_detect_cases(ctx, out, names, rule):
         det0 = ctx.facts.bodies.get(info.get("detect") or "")
         if det0 is None or det0.argc != 2:
             continue
-        v = ctx.inl(det0, skip=lambda cb: False, tag="all-sugar", sugar=True)
+        # (a data-driven detector is walked on its own value; a blanket impl is instantiated for the detector's type)
+        dself = info.get("detect_self")
+        v = ctx.inl(det0, skip=lambda cb: False, tag="all-sugar", sugar=True, subst=info.get("detect_subst"))
         undecided = False
         for value in (None, "", "  ", "x"):
             for modified in (0, 1):
@@ -893,6 +949,9 @@ def check_detect_cases(ctx, out, names, rule):
                             return CW.const(1 if hit else 0)
                         return CW.adt("std::option::Option", "Some", 1, [("0", CW.const(value))]) if hit else CW.adt("std::option::Option", "None", 0, [])
                     r_ = sm(w, bb, t, argv, env)
+                    if r_ is not None:
+                        return r_
+                    r_ = lmh(w, bb, t, argv, env)
                     if r_ is not None:
                         return r_
                     return std(w, bb, t, argv, env)
@@ -913,6 +972,9 @@ def check_detect_cases(ctx, out, names, rule):
                 block = CW.adt("blockwatch::blocks::Block", "Block", 0, [("attributes", CW.sym("ATTRS"))])
                 fields = [("block", block)] + [(f, CW.const(modified)) for f in flag_fields]
                 env = {-9: CW.adt("blockwatch::blocks::BlockWithContext", "BlockWithContext", 0, fields), 2: ("ref", -9, (), False)}
+                if dself is not None:
+                    env[-8] = dself
+                    env[1] = ("ref", -8, (), False)
                 try:
                     w.explore(0, env)
                 except CW.Limit:
